@@ -52,7 +52,7 @@ theorem slot_of_out (K : PCtx) (q : Nat) (h : q < K.S) : K.slot (K.S - 1 - q) = 
     representation is preserved; the slots below the first parameter index are untouched. -/
 theorem exec_loadActuals (K : PCtx) (wf : K.WF) : ∀ (es : List X.Expr) (fuel : Nat) (st s : X.St) (ws : List Word),
     (∀ e ∈ es, pureE e = true) → X.evalArgs fuel K.xc es st = .ok (ws.map Val.int) s →
-    ∀ (p saved : Nat) (gs : GS) (code : Code) (gs' : GS) (i : Nat) (a b : Word) (mem : Mem) (io : Isa.IOSt),
+    ∀ (p saved : Nat) (gs : GS) (code : Code) (gs' : GS) (i : Nat) (a b : Word) (mem : Mem) (io : Isa.IOSt), st.io = io →
       loadActuals K.ctx (optArgsOf K.ρ es) p saved gs = .ok (code, gs') → At K.env.ds i (K.low code) → Rep K st mem →
       gs'.size + (p + es.length) ≤ K.S → K.nlocals ≤ gs.offset → gs.offset ≤ gs.size → ConstsIn K gs' →
       ∃ a' b' mem', Steps K.env (cfg i a b mem) io (cfg (i + (K.low code).length) a' b' mem') io ∧ Rep K st mem' ∧
@@ -62,7 +62,7 @@ theorem exec_loadActuals (K : PCtx) (wf : K.WF) : ∀ (es : List X.Expr) (fuel :
   intro es
   induction es with
   | nil =>
-    intro fuel st s ws _ hev p saved gs code gs' i a b mem io hg hat hr hb hnl hos hci
+    intro fuel st s ws _ hev p saved gs code gs' i a b mem io hio hg hat hr hb hnl hos hci
     simp only [optArgsOf, List.map_nil] at hg
     rw [loadActuals_nil] at hg
     simp only [Except.ok.injEq, Prod.mk.injEq] at hg
@@ -74,7 +74,8 @@ theorem exec_loadActuals (K : PCtx) (wf : K.WF) : ∀ (es : List X.Expr) (fuel :
     subst hws
     exact ⟨a, b, mem, Steps.refl _ _, hr, fun k hk => by simp at hk, fun _ _ => rfl, FrmC.refl _ _ _ _⟩
   | cons e rest ih =>
-    intro fuel st s ws hp hev p saved gs code gs' i a b mem io hg hat hr hb hnl hos hci
+    intro fuel st s ws hp hev p saved gs code gs' i a b mem io hio hg hat hr hb hnl hos hci
+    subst hio
     cases fuel with
     | zero => rw [evalArgs_zero] at hev; simp at hev
     | succ f =>
@@ -96,7 +97,7 @@ theorem exec_loadActuals (K : PCtx) (wf : K.WF) : ∀ (es : List X.Expr) (fuel :
           simp only [List.length_cons] at hb
           simp only [low_append, List.append_assoc] at hat ⊢
           have hA := expr_pure_correct K wf f e st v s1 hpe h1
-          obtain ⟨b1, mem1, st1, rep1, frm1⟩ := hA gs c gs1 i a b mem io hg1 hat.left hr
+          obtain ⟨b1, mem1, st1, rep1, frm1⟩ := hA gs c gs1 i a b mem hg1 hat.left hr
             (by have := e2.2.1; omega) hnl (hci.of_eff e2)
           -- store into the parameter slot
           have hmid : K.low [iLDBM SP_OFFSET, iSTAI (p : Int)] = [.imm 0x1 1, .imm 0x8 (p : Int)] := rfl
@@ -104,7 +105,7 @@ theorem exec_loadActuals (K : PCtx) (wf : K.WF) : ∀ (es : List X.Expr) (fuel :
           have hld := hat.right.left.get 0 _ rfl
           have hst := hat.right.left.get 1 _ rfl
           simp only [Nat.add_zero] at hld hst
-          have sA := Step.ldbm (env := K.env) (cfg (i + (K.low c).length) v b1 mem1) io 1 _ hld (ld_one mem1)
+          have sA := Step.ldbm (env := K.env) (cfg (i + (K.low c).length) v b1 mem1) st.io 1 _ hld (ld_one mem1)
           have hpS : p < K.S := by omega
           obtain ⟨hsl1, hsl2⟩ := wf.slot_ok (K.S - 1 - p) (by omega)
           rw [slot_of_out K p hpS] at hsl1 hsl2
@@ -114,7 +115,7 @@ theorem exec_loadActuals (K : PCtx) (wf : K.WF) : ∀ (es : List X.Expr) (fuel :
             rw [hadr]; exact store_ofNat _ _ _ _ hsl1 hsl2
           have hne1 : (mem1.read 1 + IAm.W (p : Int)).toNat ≠ 1 := by
             rw [hadr]; exact ofNat_toNat_ne_one _ (by have := wf.sp_ge; omega) hsl1
-          have sB := Step.stai (env := K.env) (cfg (i + (K.low c).length + 1) v (mem1.read 1) mem1) io _ _ hst hsto hne1
+          have sB := Step.stai (env := K.env) (cfg (i + (K.low c).length + 1) v (mem1.read 1) mem1) st.io _ _ hst hsto hne1
           have frm2 : Frm K (K.S - 1 - p) (K.S - p) mem1 (mem1.write (K.sp + p) v) := by
             intro ad had
             rw [Mem.read_write_other]
@@ -124,7 +125,7 @@ theorem exec_loadActuals (K : PCtx) (wf : K.WF) : ∀ (es : List X.Expr) (fuel :
           have rep2 := rep1.frame wf frm2 (by have := e1.2.1; have := e2.2.1; omega) (by omega)
           have hs1 := eval_pure K.xc _ _ _ _ _ hpe h1
           obtain ⟨a', b', mem', st3, rep3, hvals, hkeep, frm3⟩ := ih f s1 s ws' hprest h2 (p + 1) saved gs1 cs gs'
-            (i + (K.low c).length + 1 + 1) v (mem1.read 1) (mem1.write (K.sp + p) v) io hg2
+            (i + (K.low c).length + 1 + 1) v (mem1.read 1) (mem1.write (K.sp + p) v) st.io hs1.2.2.2.1 hg2
             (by simpa [Nat.add_assoc] using hat.right.right) (rep2.same hs1)
             (by omega) (by have := e1.1; omega) (by have := e1.1; have := e1.2.1; omega) hci
           refine ⟨a', b', mem', ?_, rep3.same hs1.symm, ?_, ?_, ?_⟩
@@ -256,7 +257,8 @@ theorem exec_syscall (K : PCtx) (wf : K.WF) (id : Nat) (hid : id < 3) (es : List
   have hwl : ws.length = es.length := by
     have := evalArgs_length K.xc es fuel st s _ hev
     simpa using this
-  obtain ⟨a1, b1, mem1, st1, rep1, hvals, _, frm1⟩ := exec_loadActuals K wf es fuel st s ws hp hev 2 gs.offset _ c2 gs2 i a b mem io h2
+  obtain ⟨a1, b1, mem1, st1, rep1, hvals, _, frm1⟩ := exec_loadActuals K wf es fuel st s ws hp hev 2 gs.offset _ c2 gs2 i a b mem io
+    (by rw [← hio]; exact ((evalArgs_pure K.xc es fuel st s _ hp hev).2.2.2.1).symm) h2
     hat.left hr (by omega) hnl (Nat.le_refl _) (fun x hx => hci x hx)
   simp only at frm1
   -- without actuals every system call is undefined
